@@ -1,0 +1,14 @@
+//go:build verif
+
+package treasure
+
+// Machine-checked contracts (comment-only; compiled only with -tags verif).
+
+// Interface-level contracts (assumed at call sites through the interface): the getters
+// are pure reads of an attribute of the record that does not change during the call.
+//@ trusted func (Treasure).GetExpirationTime(t) (r)
+//@   ensures r == U_treasure_exp(t)
+//@ trusted func (Treasure).GetCreatedAt(t) (r)
+//@   ensures r == U_treasure_created(t)
+//@ trusted func (Treasure).GetModifiedAt(t) (r)
+//@   ensures r == U_treasure_modified(t)
